@@ -1036,6 +1036,28 @@ func ruleLevel(r *core.Reporter) {
 				badPos = in
 			}
 		})
+		// a stage that removes nodes while it works (the preprocessor: RemoveChild, DedupeItems) keeps the depth it
+		// started with: the tree may have become shallower, and "nothing left at my level" must stay visible
+		if bad == "" && cnt > 1 {
+			mutates := false
+			allInstrs(fn, func(in ssa.Instruction) {
+				if ir.IsPlainCallTo(in, "(*"+pkgModels+".Item).RemoveChild", "(*"+pkgModels+".Item).DedupeItems") {
+					mutates = true
+				}
+			})
+			if mutates {
+				var depths []ssa.Value
+				allInstrs(fn, func(in ssa.Instruction) {
+					if ir.IsPlainCallTo(in, "(*"+pkgModels+".Item).GetNodesAtLevel") {
+						depths = append(depths, ir.Strip(ir.AsCall(in).Args[1]))
+						if depths[len(depths)-1] != depths[0] {
+							bad = "the work list is re-read at a depth that is computed again after nodes were removed: when the whole deepest level was dropped the stage silently moves one level up (already finished nodes) instead of seeing an empty list — the 'nothing left, seed completed' exit is dead and the seencheck is handed a level without fresh URLs"
+							badPos = in
+						}
+					}
+				})
+			}
+		}
 		switch {
 		case cnt == 0:
 			r.Violated(name, fnPos(p, fn), "work list is no longer obtained from GetNodesAtLevel")
